@@ -31,6 +31,7 @@ const (
 	cNameField = "a rejection names the input field enclosing the fault"
 	cNoEcho    = "with content exposure disabled a rejection never echoes variable content"
 	cNoPanic   = "variable admission never panics"
+	cHistory   = "a validator's verdict and message depend only on the current request, not on earlier requests"
 )
 
 // ---------------------------------------------------------------- space
@@ -192,15 +193,24 @@ type replayInput struct {
 	Slots []slot   `json:"slots"`
 	Doc   string   `json:"doc,omitempty"`
 	Tags  []string `json:"tags,omitempty"`
+	// History: requests the re-used validator instances saw before this one
+	// (only recorded for the history clause: the last rejected request and the
+	// request right before this one)
+	History []replayInput `json:"history,omitempty"`
+}
+
+func (c *tcase) replay() replayInput {
+	return replayInput{Slots: c.slots(), Doc: c.Doc, Tags: c.tags()}
 }
 
 // ---------------------------------------------------------------- evaluation
 
 type failure struct {
-	Clause string
-	F      *fault // the fault the failure is about (nil for false rejections / panics)
-	Hidden bool   // observed on the validator with content exposure disabled
-	Detail string
+	Clause  string
+	F       *fault // the fault the failure is about (nil for false rejections / panics)
+	Hidden  bool   // observed on the validator with content exposure disabled
+	Detail  string
+	History []replayInput // history clause only
 }
 
 type evalResult struct {
@@ -216,10 +226,19 @@ type evalResult struct {
 type oracles struct {
 	eng engineSchemas
 	gq  gqSchemas
+	// long-lived validator instances, re-used for every request of this process,
+	// and what they saw
+	ru          *reusePair
+	lastRej     *tcase // last request the validator step rejected
+	prev        *tcase // request right before the current one (validator step ran)
+	prevVerdict int    // 0 none yet, 1 accepted, 2 rejected (fresh instance, validator step)
+	nRA, nAR    int64  // reject->accept and accept->reject transitions seen by the re-used instances
+	nCompared   int64
+	nResets     int64
 }
 
 func newOracles() *oracles {
-	return &oracles{eng: newEngineSchemas(), gq: newGqSchemas()}
+	return &oracles{eng: newEngineSchemas(), gq: newGqSchemas(), ru: newReusePair()}
 }
 
 func isIdent(b byte) bool {
@@ -293,7 +312,8 @@ func (o *oracles) eval(c *tcase) *evalResult {
 	prov := c.provided()
 	vj := c.varsJSON()
 	r.lab = coerceVariables(c.gc.u, c.gc.vars, prov)
-	r.adm = admit(o.eng.get(c.gc.sdlE), c.gc.query, vj)
+	r.adm = admit(o.eng.get(c.gc.sdlE), c.gc.query, vj, o.ru)
+	o.history(c, r)
 	gs, gop := o.gq.get(c.gc.sdlG, c.gc.query)
 	gqVars := vj
 	if c.Doc == "none" || c.Doc == "null" {
@@ -409,6 +429,61 @@ func (o *oracles) eval(c *tcase) *evalResult {
 		}
 	}
 	return r
+}
+
+// history compares the re-used validator instances with the fresh ones on the
+// same input and keeps track of what the re-used instances have seen.
+func (o *oracles) history(c *tcase, r *evalResult) {
+	a := r.adm
+	if a.Stage == "panic" {
+		// a panic may leave a re-used instance in any state: start over
+		o.ru, o.prevVerdict, o.lastRej, o.prev = newReusePair(), 0, nil, nil
+		o.nResets++
+		return
+	}
+	if !a.ReuseRan {
+		return
+	}
+	o.nCompared++
+	var diffs []string
+	cmp := func(which string, fa bool, fm string, ra bool, rm string) {
+		switch {
+		case fa != ra:
+			diffs = append(diffs, fmt.Sprintf("%s: fresh instance accepted=%v (%q), re-used instance accepted=%v (%q)", which, fa, fm, ra, rm))
+		case fm != rm:
+			diffs = append(diffs, fmt.Sprintf("%s: same verdict, fresh instance says %q, re-used instance says %q", which, fm, rm))
+		}
+	}
+	cmp("content exposed", a.Accepted, a.Msg, a.ReuseAccepted, a.ReuseMsg)
+	cmp("content exposure disabled", a.HiddenAccepted, a.HiddenMsg, a.ReuseHiddenAccepted, a.ReuseHiddenMsg)
+	if len(diffs) > 0 {
+		fl := failure{Clause: cHistory, Detail: strings.Join(diffs, " | ")}
+		if o.lastRej != nil {
+			fl.Detail += " | last request rejected before: " + o.lastRej.describe()
+			fl.History = append(fl.History, o.lastRej.replay())
+		}
+		if o.prev != nil && o.prev != o.lastRej {
+			fl.Detail += " | request right before: " + o.prev.describe()
+			fl.History = append(fl.History, o.prev.replay())
+		}
+		r.fails = append(r.fails, fl)
+		// start over so that every report is an independent occurrence
+		o.ru, o.prevVerdict, o.lastRej, o.prev = newReusePair(), 0, nil, nil
+		o.nResets++
+		return
+	}
+	v := 1
+	if !a.Accepted {
+		v = 2
+		o.lastRej = c
+	}
+	if o.prevVerdict == 2 && v == 1 {
+		o.nRA++
+	} else if o.prevVerdict == 1 && v == 2 {
+		o.nAR++
+	}
+	o.prevVerdict = v
+	o.prev = c
 }
 
 // ---------------------------------------------------------------- classification
@@ -869,6 +944,16 @@ func report(run *vk.Run, c *tcase, r *evalResult, fl failure, shrunkFrom string)
 		Input: replayInput{Slots: c.slots(), Doc: c.Doc, Tags: c.tags()}})
 }
 
+// reportHistory: the fingerprint of a history dependence does not depend on
+// the pair of requests that showed it.
+func reportHistory(run *vk.Run, c *tcase, fl failure) {
+	in := c.replay()
+	in.History = fl.History
+	run.Violate(vk.Violation{Clause: cHistory, Site: "VariablesValidator instance re-used across requests",
+		Class:  "differs from a fresh instance on the same input",
+		Detail: c.describe() + " | " + fl.Detail, Input: in})
+}
+
 func labelText(l labelResult) string {
 	if l.coercible() {
 		if len(l.Ambiguous) > 0 {
@@ -897,6 +982,11 @@ func handle(run *vk.Run, sh *shrinker, c *tcase, r *evalResult, single func(i in
 	for _, fl := range r.fails {
 		ck := clauseKey(fl)
 		if done[ck] {
+			continue
+		}
+		if fl.Clause == cHistory {
+			reportHistory(run, c, fl)
+			done[ck] = true
 			continue
 		}
 		if len(c.vals) > 1 {
@@ -1033,7 +1123,13 @@ func TestCheck(t *testing.T) {
 	o := newOracles()
 	sh := &shrinker{sp: newSpace(shrinkSpace()), o: o, memo: map[string]*shrunk{}}
 	sh.sp.keepAll = true
-	defer func() { run.Count("shrink_candidate_evaluations", int64(sh.evals)) }()
+	defer func() {
+		run.Count("shrink_candidate_evaluations", int64(sh.evals))
+		run.Count("reused_validator_comparisons", o.nCompared)
+		run.Count("reused_validator_reject_to_accept_transitions", o.nRA)
+		run.Count("reused_validator_accept_to_reject_transitions", o.nAR)
+		run.Count("reused_validator_restarts", o.nResets)
+	}()
 
 	if run.Replay != "" {
 		var in replayInput
@@ -1044,9 +1140,20 @@ func TestCheck(t *testing.T) {
 		if err != nil {
 			t.Fatalf("replay input: %v", err)
 		}
+		for _, h := range in.History {
+			hc, err := caseFromSlots(sh.sp, h)
+			if err != nil {
+				t.Fatalf("replay input (history): %v", err)
+			}
+			o.eval(hc)
+		}
 		r := o.eval(c)
 		account(run, c, r)
 		for _, fl := range r.fails {
+			if fl.Clause == cHistory {
+				reportHistory(run, c, fl)
+				continue
+			}
 			report(run, c, r, fl, "")
 		}
 		fmt.Printf("replay: %s\n  label: %s\n  engine: accepted=%v stage=%q msg=%q\n  hidden: ran=%v accepted=%v msg=%q\n  gqlparser: %s %s\n  status: %s\n",
@@ -1062,6 +1169,7 @@ func TestCheck(t *testing.T) {
 		"scalar leaves and oneOf are judged by the label alone and only for the pairs the spec text settles (DESIGN.md C06 table); 1.0/1e3 for Int and ID, numbers beyond 2^53 / not finite, and a non-list item inside a list of lists are not judged",
 		"variable and input-field default literals are valid (generated valid, checked by operation validation of both implementations)",
 		"variables are used at a position of exactly their declared type",
+		"history clause: per process one VariablesValidator with and one without DisableExposingVariablesContent are re-used for every request (also the shrinker's) right after the fresh instances; verdict and full message text must equal the fresh instance's on the same input; after a mismatch or a panic the re-used instances are replaced; the enumeration alternates acceptable and unacceptable inputs (transitions counted in the evidence)",
 		"the admission sequence replayed through exported APIs equals ExecutionEngine.Execute up to ValidateWithRemap (default engine options)",
 	)
 	run.Bound("positions", cfg.Ctxs)
